@@ -709,3 +709,8 @@ def finish(tier, rep: Report):
         fails.append("face constraint clause never held")
     return fails
 
+
+def warm_variant(task, tier):
+    """Tasks that are also run on meshes whose attribute blackboard is already filled with (valid) persistent attributes
+    (mc/families.py WARM; the runner appends ':warm_attribute_blackboard' to the input class of anything found there)."""
+    return bool(task.get("kind") == "sweep")
